@@ -768,6 +768,17 @@ func (d *DataChannel) collectStats(collector *statsReportCollector) {
 	collector.Collect(stats.ID, stats)
 }
 
+// setReadyState moves the ready state forward along
+// connecting -> open -> closing -> closed; a request to move it backward
+// (e.g. "open" arriving after a concurrent Close stored "closing") is ignored.
 func (d *DataChannel) setReadyState(r DataChannelState) {
-	d.readyState.Store(r)
+	for {
+		old := d.readyState.Load()
+		if cur, ok := old.(DataChannelState); ok && cur >= r {
+			return
+		}
+		if d.readyState.CompareAndSwap(old, r) {
+			return
+		}
+	}
 }
